@@ -227,6 +227,25 @@ func resolveStructFields(fn *ssa.Function) bool {
 		for _, ref := range *a.Referrers() {
 			switch x := ref.(type) {
 			case *ssa.Store:
+				// `return req, err` with req a named result copies the struct onto
+				// itself (load, store of what was loaded, nothing written in between)
+				if ld, isLd := x.Val.(*ssa.UnOp); isLd && ld.Op == token.MUL && ld.X == ssa.Value(a) && ld.Block() == x.Block() {
+					selfCopy := true
+					for k := instrPos(ld) + 1; k < instrPos(x); k++ {
+						// (the cell's address goes nowhere: only stores can write it)
+						if st, isSt := x.Block().Instrs[k].(*ssa.Store); isSt {
+							if st.Addr == ssa.Value(a) {
+								selfCopy = false
+							}
+							if fa, isFA := st.Addr.(*ssa.FieldAddr); isFA && fa.X == ssa.Value(a) {
+								selfCopy = false
+							}
+						}
+					}
+					if selfCopy {
+						continue
+					}
+				}
 				wholeStores = append(wholeStores, x)
 			case *ssa.FieldAddr:
 				if x.Field != i || x.Referrers() == nil {
